@@ -230,7 +230,7 @@ type cloud struct {
 	s      *sched.Sched
 	rec    *rec
 	mu     sync.Mutex
-	stored int64            // BytesSent + BytesReceived of the mapping
+	stored int64 // BytesSent + BytesReceived of the mapping
 	sent   int64
 	recv   int64
 	seen   map[int64]int64 // goroutine -> total it got from its last GetPortMapping
@@ -330,6 +330,14 @@ type rw struct {
 	rec       *rec
 	what      string
 	afterData func()
+}
+
+func (x *rw) Write(p []byte) (int, error) {
+	n, err := x.memConn.Write(p)
+	if n > 0 && x.afterData != nil {
+		x.afterData()
+	}
+	return n, err
 }
 
 func (x *rw) Read(p []byte) (int, error) {
